@@ -1,10 +1,17 @@
 /-
 Totality of the functional encoder (C07, second half), part 1: `compute_error`.
 
-The checked `i32` path of `compute_error` is guarded by `maxabs(signal) · Σ|coef| < i32::MAX`.  The guard
-bounds every product and every partial sum of the accumulator; it does NOT bound the final subtraction
-`x[t] - (acc >> shift)`.  `LpcSafe` is the exact condition under which `compute_error` followed by the
-Rice parameter search hits no panic site (`lpcCandidate_isSome_iff` in `TotalSubframe.lean`).
+The checked `i32` path of `compute_error` is guarded by `maxabs(signal) · (Σ|coef| + 1) < i32::MAX`.  With
+`M = maxabs(signal)` and `S = Σ|coef|` the guard bounds every product (`≤ M·S`), every partial sum of the
+accumulator (`≤ M·S`), its shifted value, and the final subtraction `x[t] - (acc >> shift)`
+(`≤ M + M·S = M·(S + 1)`): the `i32` path never overflows (`computeError32_total`), for ANY coefficients,
+shift and signal, and every value it produces lies strictly inside `-(2^31 - 1) .. 2^31 - 1`.  On the `i64`
+path the flag reports whether every exact error is a FLAC residual.  So `compute_error` never panics
+(`computeError_total`), its flag is `true` iff the exact LPC residual lies in `-(2^31-1) ..= 2^31-1`
+(`computeError_flag_iff`), and with flag `true` the buffer holds exact values, none of them `i32::MIN`.
+
+`computeErrorOld` is the dispatch BEFORE the fix (guard `M·S < i32::MAX`, which does not cover the final
+subtraction, and an `i64` path that wraps silently); it is kept for the negative controls only.
 -/
 import FlacVerif.Lemmas.StrictSearch
 import FlacVerif.Lemmas.CountFrame
@@ -149,68 +156,137 @@ theorem computeError32_some (coefs : List Int) (shift : Nat) (xs : List Int)
   rw [List.mem_range] at ht
   rw [if_pos (hfit t ht)]
 
-theorem computeError32_none (coefs : List Int) (shift : Nat) (xs : List Int)
-    (hg : (xs.foldl (fun m x => max m x.natAbs) 0) * (coefs.foldl (fun s c => s + c.natAbs) 0) < 2 ^ 31 - 1)
-    (t : Nat) (ht : t < xs.length) (hfit : fitsI32 (errE coefs shift xs t) = false) :
-    computeError32 coefs shift xs = none := by
-  rw [computeError32_guarded coefs shift xs hg]
-  cases h : (List.range xs.length).mapM (fun t =>
-      if fitsI32 (errE coefs shift xs t) then some (if t < coefs.length then 0 else errE coefs shift xs t)
-      else none) with
-  | none => rfl
-  | some ys =>
-    obtain ⟨y, hy⟩ := mapM_some_mem _ _ _ h t (List.mem_range.2 ht)
-    rw [hfit] at hy
-    simp at hy
+theorem natAbs_shiftRight_le (a : Int) (s : Nat) : (a >>> s).natAbs ≤ a.natAbs := by
+  rw [Int.shiftRight_eq_div_pow]
+  exact Int.natAbs_ediv_le_natAbs _ _
 
-/-- **The exact no-panic condition of `compute_error` + `encode_signbit`** for one parameter set:
-(1) on the checked `i32` path the subtraction `x[t] - (acc >> shift)` fits an `i32` at every position;
-(2) no emitted error (position `t ≥ order`, after the cast to `i32` on the `i64` path) is `i32::MIN`. -/
-def LpcSafe (coefs : List Int) (shift : Nat) (xs : List Int) : Prop :=
-  (¬ lpcWide coefs xs → ∀ t, t < xs.length → fitsI32 (errE coefs shift xs t) = true) ∧
-  (∀ t, coefs.length ≤ t → t < xs.length → wrap32 (errE coefs shift xs t) ≠ -(2 ^ 31 : Int))
+/-- The exact accumulator is bounded by `M · Σ|coef|`, the exact error by `M · (Σ|coef| + 1)`. -/
+theorem errE_bound (coefs : List Int) (shift : Nat) (xs : List Int) (t M : Nat) (hM : ∀ x ∈ xs, x.natAbs ≤ M)
+    (hg : M * sumAbs coefs < 2 ^ 31 - 1) :
+    (accE coefs xs t).natAbs ≤ M * sumAbs coefs ∧ (errE coefs shift xs t).natAbs ≤ M * (sumAbs coefs + 1) := by
+  have ha := (acc_checked coefs xs t M hM hg coefs.length (Nat.le_refl _)).2
+  rw [List.take_length, ← accE_eq_foldl] at ha
+  refine ⟨ha, ?_⟩
+  unfold errE
+  have h1 := Int.natAbs_sub_le (xs.getD t 0) (accE coefs xs t >>> shift)
+  have h2 := natAbs_shiftRight_le (accE coefs xs t) shift
+  have h3 := getD_natAbs_le xs t M hM
+  rw [Nat.mul_add, Nat.mul_one]
+  omega
 
-instance (coefs : List Int) (shift : Nat) (xs : List Int) : Decidable (LpcSafe coefs shift xs) := by
-  unfold LpcSafe
-  have d1 : Decidable (∀ t, t < xs.length → fitsI32 (errE coefs shift xs t) = true) :=
-    Nat.decidableBallLT _ _
-  have d2 : Decidable (∀ t, coefs.length ≤ t → t < xs.length → wrap32 (errE coefs shift xs t) ≠ -(2 ^ 31 : Int)) :=
-    decidable_of_iff (∀ t, t < xs.length → coefs.length ≤ t → wrap32 (errE coefs shift xs t) ≠ -(2 ^ 31 : Int))
-      ⟨fun h t a b => h t b a, fun h t a b => h t b a⟩
-  infer_instance
+/-- **The checked `i32` path never overflows under the new guard** `maxabs · (Σ|coef| + 1) < i32::MAX` —
+no product, partial sum or final subtraction leaves the `i32` range — for ANY coefficients, shift and
+signal (no hypothesis on the samples: the guard itself bounds them). Every exact error, at every
+position, is smaller in absolute value than `2^31 - 1`; in particular none is `i32::MIN`. -/
+theorem computeError32_total (coefs : List Int) (shift : Nat) (xs : List Int)
+    (hg : (xs.foldl (fun m x => max m x.natAbs) 0) * ((coefs.foldl (fun s c => s + c.natAbs) 0) + 1) < 2 ^ 31 - 1) :
+    computeError32 coefs shift xs =
+      some ((List.range xs.length).map fun t => if t < coefs.length then 0 else errE coefs shift xs t) ∧
+    ∀ t, (errE coefs shift xs t).natAbs < 2 ^ 31 - 1 := by
+  have hg' : (xs.foldl (fun m x => max m x.natAbs) 0) * (coefs.foldl (fun s c => s + c.natAbs) 0) < 2 ^ 31 - 1 := by
+    rw [Nat.mul_add] at hg
+    omega
+  have hb : ∀ t, (errE coefs shift xs t).natAbs < 2 ^ 31 - 1 := by
+    intro t
+    have hM := (foldl_maxAbs xs 0).2
+    rw [foldl_sumAbs, Nat.zero_add] at hg hg'
+    have := (errE_bound coefs shift xs t _ hM hg').2
+    omega
+  refine ⟨computeError32_some coefs shift xs hg' ?_, hb⟩
+  intro t _
+  have := hb t
+  rw [fitsI32_iff]
+  omega
 
-/-- Under `LpcSafe`, `compute_error` returns errors strictly inside `(-2^31, 2^31)`. -/
-theorem computeError_safe (coefs : List Int) (shift : Nat) (xs : List Int) (h : LpcSafe coefs shift xs) :
-    ∃ errors, computeError coefs shift xs = some errors ∧ errors.length = xs.length ∧
-      ∀ e ∈ errors, -(2 ^ 31 : Int) < e ∧ e < (2 ^ 31 : Int) := by
-  obtain ⟨h1, h2⟩ := h
+/-- **`compute_error` never panics**, for ANY coefficients, shift and signal. -/
+theorem computeError_isSome (coefs : List Int) (shift : Nat) (xs : List Int) :
+    ∃ errors fits, computeError coefs shift xs = some (errors, fits) := by
   unfold computeError
   simp only []
   split
   · rename_i hg
-    have hnw : ¬ lpcWide coefs xs := fun hw => hw hg
-    refine ⟨_, computeError32_some coefs shift xs hg (h1 hnw), by simp, ?_⟩
+    rw [(computeError32_total coefs shift xs hg).1]
+    exact ⟨_, _, rfl⟩
+  · exact ⟨_, _, rfl⟩
+
+/-- **The flag is exact**: whatever `compute_error` returns, its flag is `true` iff every value of the exact
+LPC residual lies in `-(2^31-1) ..= 2^31-1`, the range of FLAC residuals (on the checked `i32` path this
+always holds). -/
+theorem computeError_flag_iff (coefs : List Int) (shift : Nat) (xs errors : List Int) (fits : Bool)
+    (h : computeError coefs shift xs = some (errors, fits)) :
+    fits = true ↔ ∀ e ∈ lpcResidual coefs shift xs, e.natAbs ≤ 2 ^ 31 - 1 := by
+  unfold computeError at h
+  simp only [] at h
+  split at h
+  · rename_i hg
+    simp only [Option.map_eq_some_iff, Prod.mk.injEq] at h
+    obtain ⟨_, _, _, rfl⟩ := h
+    refine ⟨fun _ => ?_, fun _ => rfl⟩
+    rw [lpcResidual_eq]
+    intro e he
+    obtain ⟨t, _, rfl⟩ := List.mem_map.1 he
+    have := (computeError32_total coefs shift xs hg).2 t
+    omega
+  · simp only [Option.some.injEq, Prod.mk.injEq] at h
+    obtain ⟨_, rfl⟩ := h
+    exact fitsResidual64_iff_residual coefs shift xs
+
+/-- With flag `true` every entry of the buffer lies strictly inside `(-2^31, 2^31)` (even inside
+`-(2^31-1) ..= 2^31-1`): `encode_signbit` does not meet `i32::MIN`. -/
+theorem computeError_range (coefs : List Int) (shift : Nat) (xs errors : List Int)
+    (h : computeError coefs shift xs = some (errors, true)) :
+    ∀ e ∈ errors, e.natAbs ≤ 2 ^ 31 - 1 := by
+  unfold computeError at h
+  simp only [] at h
+  split at h
+  · rename_i hg
+    obtain ⟨h1, h2⟩ := computeError32_total coefs shift xs hg
+    rw [h1] at h
+    simp only [Option.map_some, Option.some.injEq, Prod.mk.injEq, and_true] at h
+    subst h
+    intro e he
+    simp only [List.mem_map, List.mem_range] at he
+    obtain ⟨t, _, rfl⟩ := he
+    split
+    · decide
+    · have := h2 t; omega
+  · simp only [Option.some.injEq, Prod.mk.injEq] at h
+    obtain ⟨rfl, hflag⟩ := h
+    rw [fitsResidual64_iff] at hflag
+    rw [computeError64_eq]
     intro e he
     simp only [List.mem_map, List.mem_range] at he
     obtain ⟨t, ht, rfl⟩ := he
     split
     · decide
-    · have hf := (fitsI32_iff _).1 (h1 hnw t ht)
-      have hne := h2 t (by omega) ht
-      rw [wrap32_id _ hf.1 hf.2] at hne
-      omega
-  · refine ⟨_, rfl, by simp [computeError64], ?_⟩
-    intro e he
-    simp only [computeError64, List.mem_map, List.mem_range] at he
-    obtain ⟨t, ht, rfl⟩ := he
-    split
-    · decide
-    · have hne := h2 t (by omega) ht
-      have hf := (fitsI32_iff _).1 (wrap32_fits (xs.getD t 0 - ((List.range coefs.length).foldl (fun (a : Int) j =>
-        if t ≥ j + 1 then a + coefs.getD j 0 * xs.getD (t - 1 - j) 0 else a) 0 >>> shift)))
-      have hne' : wrap32 (xs.getD t 0 - ((List.range coefs.length).foldl (fun (a : Int) j =>
-        if t ≥ j + 1 then a + coefs.getD j 0 * xs.getD (t - 1 - j) 0 else a) 0 >>> shift)) ≠ -(2 ^ 31 : Int) := hne
-      omega
+    · have := hflag t (by omega) ht
+      rw [wrap32_id _ (by omega) (by omega)]
+      exact this
+
+/-- `compute_error`, summary: it returns; the buffer has one entry per sample; with flag `true` every
+entry lies strictly inside `(-2^31, 2^31)` and the entries after the warm-up are the exact LPC residual. -/
+theorem computeError_total (coefs : List Int) (shift : Nat) (xs : List Int) :
+    ∃ errors fits, computeError coefs shift xs = some (errors, fits) ∧ errors.length = xs.length ∧
+      (fits = true → (∀ e ∈ errors, -(2 ^ 31 : Int) < e ∧ e < (2 ^ 31 : Int)) ∧
+        errors.drop coefs.length = lpcResidual coefs shift xs) := by
+  obtain ⟨errors, fits, h⟩ := computeError_isSome coefs shift xs
+  refine ⟨errors, fits, h, (computeError_fits coefs shift xs errors h).1, ?_⟩
+  intro hf
+  subst hf
+  refine ⟨?_, (computeError_spec coefs shift xs errors h).2.2⟩
+  intro e he
+  have := computeError_range coefs shift xs errors h e he
+  omega
+
+/-! ### the dispatch before the fix (negative controls only) -/
+
+/-- `compute_error` BEFORE the fix: the guard `maxabs · Σ|coef| < i32::MAX` covers the accumulation but not
+the final subtraction, and the `i64` path casts with `as i32` without telling anybody. -/
+def computeErrorOld (coefs : List Int) (shift : Nat) (xs : List Int) : Option (List Int) :=
+  let maxabs := xs.foldl (fun m x => max m x.natAbs) 0
+  let sumabs := coefs.foldl (fun s c => s + c.natAbs) 0
+  if maxabs * sumabs < 2 ^ 31 - 1 then computeError32 coefs shift xs
+  else some (computeError64 coefs shift xs)
 
 end Total
 end FlacVerif
